@@ -52,6 +52,47 @@ def run(chk, repo: Repo):
     chk.rule("C04-R9", "Lognormal evaluates through an inner Gaussian mirror: each mirrored parameter is refreshed whenever SOME entry differs "
                        "(refresh-if must be equivalent to `exists i: mirror[i] != parameter[i]`)", floor=2)
     _r9(chk, repo)
+    chk.rule("C04-R10", "a log-determinant read off a matrix diagonal (sum of logs of diag(M)) is used only where M is diagonal by the branch's own structural "
+                        "test or is a Cholesky factor; for a general square root R (any R with R.T R = prec is documented as valid) it is not log det", floor=4)
+    _r10(chk, repo)
+
+
+def _r10(chk, repo):
+    from ..flow import Expander
+    from .common import canon_fn
+    from ..pattern import norm as pn
+    n = 0
+    for helper in HELPERS:
+        hf = repo.func(f"{GA}:{helper}")
+        ex = Expander(canon_fn(repo, None, hf, 1, rel=GA))
+        g = ex.cfg
+        mat = func_params(hf)[1]
+        for nd in g.nodes:
+            a = nd.ast
+            if nd.kind != "stmt" or not isinstance(a, ast.Assign) or path_of(a.targets[0]) != "logdet":
+                continue
+            v = ex.expand(a.value, nd, stop=frozenset({mat}))
+            diag_of = []
+            for c in ast.walk(v):
+                if isinstance(c, ast.Call) and (call_name(c) or "") in ("np.diag", "np.diagonal") and c.args and path_of(c.args[0]) == mat:
+                    diag_of.append(c)
+                elif isinstance(c, ast.Call) and isinstance(c.func, ast.Attribute) and c.func.attr == "diagonal" and path_of(c.func.value) == mat:
+                    diag_of.append(c)
+            if not diag_of:
+                continue
+            n += 1
+            guards = [(pn(ex.expand(t.ast, t, stop=frozenset({mat}))), lab) for t, lab in g.guards_of(nd)]
+            DIAG = {pn(f"np.count_nonzero({mat}-np.diag({mat}.diagonal()))==0"), pn(f"np.count_nonzero({mat}-np.diag(np.diag({mat})))==0"),
+                    pn(f"0==np.count_nonzero({mat}-np.diag({mat}.diagonal()))")}
+            by_test = any(lab == "T" and any(d in tx for d in DIAG) for tx, lab in guards)
+            vector = any(lab == "T" and (f"{mat}.ndim==1" in tx or f"len({mat}.shape)==1" in tx) for tx, lab in guards)
+            chk.add("C04-R10", f"{GA}:{helper}/logdet-from-diagonal@{pn(a.value)[:40]}", by_test or vector, site(repo, a),
+                    "diagonal read under the branch's exact diagonal-structure test",
+                    f"`{unparse(a)[:90]}` takes the log-determinant from the diagonal of `{mat}` in a branch that does not establish that `{mat}` is diagonal "
+                    f"(or triangular): for a full square root such as sqrtm(prec) or Q @ chol(prec) the normalising constant is wrong while the same "
+                    f"law given as cov / prec is normalised correctly", a)
+    if n < 4:
+        raise AnchorError(f"{n} log-determinants read from a matrix diagonal found in the Gaussian helpers, 4 confirmed by hand (one diagonal branch each)")
 
 
 def _r1(chk, repo):
